@@ -1,8 +1,8 @@
 // C09 — corruption of stored data is detected, never served as valid.
 //
-// Space (enumerated completely, no sampling): small real stores built with embedded/store (4 transactions:
-// multi-entry txs, tx metadata (extra, truncatedUpto), KV metadata (deleted / non-indexable / expirable), an
-// empty value, a 1-byte value, values crossing a chunk boundary; file size 256 => tx log and value logs have
+// Space (enumerated completely, no sampling): small real stores built with embedded/store (3 transactions:
+// multi-entry and single-entry txs, tx metadata (extra, truncatedUpto), KV metadata (deleted / non-indexable /
+// expirable), an empty value, a 1-byte value, values crossing a chunk boundary; file size 256 => tx log and value logs have
 // several chunks) in the configurations plain / flate value logs x MaxIOConcurrency 1 / 2 and embedded values.
 // Sites = every byte of every committed tx-log record (embedded: the whole committed tx-log range incl. the
 // embedded values) and every byte of every referenced value-log range (flate: length prefix + compressed bytes).
@@ -10,9 +10,11 @@
 // thorough tier additionally every pair of bit flips whose bytes are less than 8 bytes apart in the same log.
 //
 // Each alteration is patched into a private copy of the store directory and the store is then read through
-//   Open, ReadTx, ReadTxHeader, ReadTxEntry, ReadValue (entries of ReadTx and of ReadTxEntry), NewTxReader
-//   ascending and descending over the whole range, ExportTx, DualProof(i,j)+VerifyDualProof for all i<=j,
-//   WaitForIndexingUpto + Get / GetWithFilters(no filter) + Resolve of every key
+//
+//	Open, ReadTx, ReadTxHeader, ReadTxEntry, ReadValue (entries of ReadTx and of ReadTxEntry), NewTxReader
+//	ascending and descending over the whole range, ExportTx, DualProof(i,j)+VerifyDualProof for all i<=j,
+//	WaitForIndexingUpto + Get / GetWithFilters(no filter) + Resolve of every key
+//
 // once with the index that was persisted before the alteration and once with the index directory removed
 // (index rebuilt from the altered log).
 //
@@ -27,12 +29,13 @@ package main
 
 import (
 	"bytes"
-	"errors"
 	"context"
 	"crypto/sha256"
 	"encoding/binary"
+	"encoding/gob"
 	"encoding/hex"
 	"encoding/json"
+	"errors"
 	"flag"
 	"fmt"
 	"io"
@@ -60,15 +63,16 @@ const (
 	fileSize     = 256
 	maxTxEntries = 4
 	maxKeyLen    = 8
-	nTx          = 4
+	nTx          = 3
 	heavyAlloc   = 32 << 20 // predicted allocation that sends an alteration to a child process
 )
 
 var (
-	ballast []byte
-	c       *lib.Check
-	hangCap = 60 * time.Second
-	nolog   = logger.NewSimpleLoggerWithLevel("c09", io.Discard, logger.LogError)
+	failedOpens atomic.Int64
+	ballast     []byte
+	c           *lib.Check
+	hangCap     = 60 * time.Second
+	nolog       = logger.NewSimpleLoggerWithLevel("c09", io.Discard, logger.LogError)
 )
 
 type cfg struct {
@@ -91,7 +95,7 @@ func options(cf cfg) *store.Options {
 	return store.DefaultOptions().WithSynced(false).WithLogger(nolog).WithFileSize(fileSize).
 		WithMaxConcurrency(2).WithMaxIOConcurrency(cf.IO).WithMaxTxEntries(maxTxEntries).WithMaxKeyLen(maxKeyLen).
 		WithMaxValueLen(1024).WithWriteBufferSize(1024).WithTxLogCacheSize(2).WithMaxActiveTransactions(4).
-		WithMaxWaitees(4).WithCompressionFormat(comp).WithEmbeddedValues(cf.Embedded).
+		WithMaxWaitees(4).WithCompressionFormat(comp).WithEmbeddedValues(cf.Embedded).WithMultiIndexing(true).
 		WithTimeFunc(func() time.Time { return time.Unix(1_700_000_000, 0) }).
 		WithIndexOptions(store.DefaultIndexOptions().WithCacheSize(16).WithFlushBufferSize(4096).WithMaxActiveSnapshots(4)).
 		WithAHTOptions(store.DefaultAHTOptions().WithWriteBufferSize(1024).WithSyncThld(4))
@@ -117,9 +121,8 @@ func noise(seed byte, n int) []byte { // deterministic, incompressible
 
 var history = [nTx][]kv{
 	{{"k1", []byte("one"), 0}, {"k2", nil, 0}, {"k3", noise(3, 130), 0}},
-	{{"k1", []byte("uno-2"), 0}, {"k2", nil, 1}, {"k4", []byte("hidden"), 2}},
-	{{"k3", noise(7, 130), 3}, {"k5", []byte("x"), 0}},
-	{{"k1", []byte("final"), 0}},
+	{{"k1", []byte("uno-2"), 0}, {"k2", nil, 1}, {"k4", []byte("hidden"), 2}, {"k3", noise(7, 130), 3}},
+	{{"k5", []byte("x"), 0}},
 }
 var allKeys = []string{"k1", "k2", "k3", "k4", "k5", "k9"}
 
@@ -129,9 +132,9 @@ func txMetadata(t int) *store.TxMetadata {
 		md := store.NewTxMetadata()
 		md.WithExtra([]byte("xtra"))
 		return md
-	case 3:
+	case 2:
 		md := store.NewTxMetadata().WithTruncatedTxID(1)
-		md.WithExtra([]byte("e4"))
+		md.WithExtra([]byte("e3"))
 		return md
 	}
 	return nil
@@ -141,16 +144,16 @@ type Obs map[string]string
 
 type pristine struct {
 	cf      cfg
-	master  string           // directory never opened again
+	master  string            // directory never opened again
 	files   map[string][]byte // relative path -> content of the master
 	getAt   [nTx + 1]Obs
-	keep    Obs
-	rebuilt Obs
+	reads   Obs // pristine observations of everything but the index
 	alh     [nTx + 1][sha256.Size]byte
 	sites   []site
 	regions []region
 	entries []entryPos
 	hash    string
+	saved   string // file holding the above for child processes
 }
 
 func harnessBug(f string, a ...any) {
@@ -165,8 +168,11 @@ func build(cf cfg, dir string) *pristine {
 	if err != nil {
 		harnessBug("build open: %v", err)
 	}
+	if err := st.InitIndexing(&store.IndexSpec{}); err != nil {
+		harnessBug("build: %v", err)
+	}
 	p.getAt[0] = Obs{}
-	getObs(st, p.getAt[0], "")
+	getObs(st, p.getAt[0])
 	for t, kvs := range history {
 		tx, err := st.NewTx(context.Background(), store.DefaultTxOptions())
 		if err != nil {
@@ -199,7 +205,7 @@ func build(cf cfg, dir string) *pristine {
 			harnessBug("wait: %v", err)
 		}
 		p.getAt[t+1] = Obs{}
-		getObs(st, p.getAt[t+1], "")
+		getObs(st, p.getAt[t+1])
 	}
 	if err := st.FlushIndexes(0, true); err != nil {
 		harnessBug("flush: %v", err)
@@ -520,16 +526,13 @@ func valBsMux(st *store.ImmuStore) *sync.Mutex {
 	return (*sync.Mutex)(unsafe.Pointer(f.UnsafeAddr()))
 }
 
-func getObs(st *store.ImmuStore, obs Obs, suffix string) {
-	s := &sweeper{obs: obs}
-	s.gets(st, suffix)
-}
+func getObs(st *store.ImmuStore, obs Obs) { (&sweeper{obs: obs}).gets(st) }
 
-func (s *sweeper) gets(st *store.ImmuStore, suffix string) {
+func (s *sweeper) gets(st *store.ImmuStore) {
 	for _, k := range allKeys {
 		for _, api := range []string{"Get", "GetWithFilters"} {
 			var ref store.ValueRef
-			ok := s.call(fmt.Sprintf("%s%s#%s", api, suffix, k), func() (string, error) {
+			ok := s.call(api+"#"+k, func() (string, error) {
 				var err error
 				if api == "Get" {
 					ref, err = st.Get(context.Background(), []byte(k))
@@ -542,8 +545,8 @@ func (s *sweeper) gets(st *store.ImmuStore, suffix string) {
 				return fmt.Sprintf("tx=%d hc=%d txmd=%s kvmd=%s hval=%x", ref.Tx(), ref.HC(), mdBytes(ref.TxMetadata()), mdBytes(ref.KVMetadata()), ref.HVal()), nil
 			})
 			if ok {
-				s.obs[fmt.Sprintf("%s%s.vLen#%s", api, suffix, k)] = fmt.Sprintf("ok:%d", ref.Len())
-				s.call(fmt.Sprintf("%s%s.Resolve#%s", api, suffix, k), func() (string, error) {
+				s.obs[api+".vLen#"+k] = fmt.Sprintf("ok:%d", ref.Len())
+				s.call(api+".Resolve#"+k, func() (string, error) {
 					v, err := ref.Resolve()
 					return hex.EncodeToString(v), err
 				})
@@ -552,14 +555,21 @@ func (s *sweeper) gets(st *store.ImmuStore, suffix string) {
 	}
 }
 
-// sweepKeep: full read sweep with the index directory as it is. Returns the number of leading readable txs.
-func (s *sweeper) sweepKeep(dir string) (readable int) {
+// sweep: Open (indexing not started: multi-indexing mode), every read API, then InitIndexing, wait for the index
+// and Get. withIndex=false stops before InitIndexing. Returns the number of leading txs ReadTx could read
+// (-1: Open failed) — the index is expected to reach exactly that tx (or nTx when it was persisted).
+func (s *sweeper) sweep(dir string, persisted, indexAfterPanic bool, afterReads func(readable int)) (readable int) {
 	var st *store.ImmuStore
 	if !s.call("Open#", func() (string, error) {
 		var err error
 		st, err = store.Open(dir, options(s.p.cf))
 		return "", err
 	}) {
+		afterReads(-1)
+		// a failed Open does not close the appendables it opened: their descriptors are only released by finalizers
+		if failedOpens.Add(1)%128 == 0 {
+			runtime.GC()
+		}
 		return -1
 	}
 	defer lib.Catch(func() { st.Close() })
@@ -654,12 +664,10 @@ func (s *sweeper) sweepKeep(dir string) (readable int) {
 			return hex.EncodeToString(b), err
 		})
 		if mux != nil && !s.panicked {
-			if mux.TryLock() {
-				mux.Unlock()
-			} else {
-				s.leaked = append(s.leaked, key)
-				mux.Unlock() // so that the sweep can continue; the violation is reported by the caller
+			if !mux.TryLock() {
+				s.leaked = append(s.leaked, key) // reported by the caller once confirmed by real waits
 			}
+			mux.Unlock() // (unlocking what ExportTx left locked lets the sweep continue)
 		}
 	}
 	for i := 1; i <= nTx; i++ {
@@ -676,39 +684,33 @@ func (s *sweeper) sweepKeep(dir string) (readable int) {
 			})
 		}
 	}
-	s.index(st, nTx, "")
+	afterReads(readable)
+	if s.panicked {
+		if !indexAfterPanic {
+			return readable
+		}
+		s.panicked = false // child process: go on, an indexer goroutine hitting the same panic kills the process
+	}
+	upto := readable
+	if persisted {
+		upto = nTx
+	}
+	if s.call("InitIndexing#", func() (string, error) { return "", st.InitIndexing(&store.IndexSpec{}) }) &&
+		s.call("WaitForIndexingUpto#", func() (string, error) {
+			ctx, cancel := context.WithTimeout(context.Background(), hangCap+10*time.Second)
+			defer cancel()
+			return "", st.WaitForIndexingUpto(ctx, uint64(upto))
+		}) {
+		s.gets(st)
+	}
 	return readable
-}
-
-func (s *sweeper) index(st *store.ImmuStore, upto int, suffix string) {
-	if s.call("WaitForIndexingUpto"+suffix+"#", func() (string, error) {
-		ctx, cancel := context.WithTimeout(context.Background(), hangCap+10*time.Second)
-		defer cancel()
-		return "", st.WaitForIndexingUpto(ctx, uint64(upto))
-	}) {
-		s.gets(st, suffix)
-	}
-}
-
-// sweepRebuilt: the index directory was removed; the index is rebuilt from the (altered) logs up to tx k.
-func (s *sweeper) sweepRebuilt(dir string, k int) {
-	var st *store.ImmuStore
-	if !s.call("Open.rebuild#", func() (string, error) {
-		var err error
-		st, err = store.Open(dir, options(s.p.cf))
-		return "", err
-	}) {
-		return
-	}
-	defer lib.Catch(func() { st.Close() })
-	s.index(st, k, ".rebuild")
 }
 
 // ---------- alterations ----------
 
 type patch struct {
-	Site int  `json:"site"`
-	New  byte `json:"new"`
+	Site int    `json:"site"`
+	New  byte   `json:"new"`
 	Op   string `json:"op"`
 }
 
@@ -815,10 +817,11 @@ func (p *pristine) predictAlloc(a alteration) int64 {
 
 // worker owns a private copy of the store.
 type worker struct {
-	p    *pristine
-	root string
-	dir  string
-	n    int
+	p     *pristine
+	root  string
+	dir   string
+	n     int
+	child *childProc
 }
 
 func newWorker(p *pristine, root string) *worker {
@@ -865,18 +868,18 @@ func (w *worker) selfCheck() {
 type outcome struct {
 	Evals     int64           `json:"evals"`
 	Detected  bool            `json:"detected"`
-	Changed   bool            `json:"changed"`
+	Example   string          `json:"example"` // one detecting observation
 	Viol      []lib.Violation `json:"viol"`
-	Leaks     []lib.Violation `json:"leaks"` // hang candidates (mutex left locked); reported once confirmed
-	NeedChild bool            `json:"need_child"` // a read panicked: the rebuild variant must run in a child process
-	Readable  int             `json:"readable"`
-	Done      []string        `json:"done"`
+	Leaks     []lib.Violation `json:"leaks"`      // hang candidates (mutex left locked); reported once confirmed
+	NeedChild bool            `json:"need_child"` // a read panicked: the index part must run in a child process
+	Partial   bool            `json:"partial"`    // child: written before the index part started
 }
 
 type replay struct {
 	Cfg     string     `json:"cfg"`
 	Alt     alteration `json:"alt"`
 	AltDesc string     `json:"alt_desc"`
+	Index   string     `json:"index"`
 	Hash    string     `json:"store_hash"`
 }
 
@@ -892,7 +895,7 @@ func (p *pristine) describe(a alteration) (field string, tx, entry int) {
 	return strings.Join(fs, "+"), tx, entry
 }
 
-// guarded runs f under the hang cap. ok=false: f did not return in time (its goroutine is abandoned).
+// guarded runs f under the hang cap. false: f did not return in time (its goroutine is abandoned).
 func guarded(f func()) bool {
 	done := make(chan struct{})
 	go func() { defer close(done); f() }()
@@ -913,38 +916,39 @@ func short(s string, n int) string {
 	return s
 }
 
-// compare applies the oracle to one sweep.
-func (p *pristine) compare(a alteration, want, got Obs, variant string, leaked []string, out *outcome) {
+func apiOf(key string) string { return key[:strings.IndexByte(key, '#')] }
+
+// compare applies the oracle to the observations made so far (want: pristine observations of the same calls).
+func (p *pristine) compare(a alteration, want, got Obs, mode string, leaked []string, out *outcome) {
 	field, tx, entry := p.describe(a)
-	where := fmt.Sprintf("field=%s cfg=%s tx=%d entry=%d alt=%s idx=%s", field, p.cf.Name, tx, entry, p.altString(a), variant)
-	rp := replay{p.cf.Name, a, p.altString(a), p.hash}
+	where := fmt.Sprintf("field=%s cfg=%s tx=%d entry=%d alt=%s index=%s", field, p.cf.Name, tx, entry, p.altString(a), mode)
+	rp := replay{p.cf.Name, a, p.altString(a), mode, p.hash}
 	byAPI := map[string][]string{}
 	keys := make([]string, 0, len(want))
 	for k := range want {
 		keys = append(keys, k)
 	}
 	sort.Strings(keys)
+	changed := false
 	for _, k := range keys {
 		out.Evals++
 		w, g := want[k], got[k]
 		switch {
 		case strings.HasPrefix(g, "panic:"):
-			api := k[:strings.IndexByte(k, '#')]
-			out.Viol = append(out.Viol, lib.Violation{Sig: fmt.Sprintf("panic api=%s %s", api, where),
+			out.Viol = append(out.Viol, lib.Violation{Sig: fmt.Sprintf("panic api=%s %s", apiOf(k), where),
 				Detail: fmt.Sprintf("%s panicked after the alteration: %s", k, short(g[6:], 1200)), Replay: rp})
-			out.NeedChild = true
-			out.Detected = true
-		case g == "" || strings.HasPrefix(g, "err:"): // not reached because an earlier call failed, or an error: fine
-			if strings.HasPrefix(w, "ok:") {
-				out.Detected = true
+			out.NeedChild, out.Detected = true, true
+		case g == "" || strings.HasPrefix(g, "err:"): // an error, or not reached because an earlier call failed: fine
+			if strings.HasPrefix(w, "ok:") && !out.Detected {
+				out.Detected, out.Example = true, k+" -> "+short(g, 200)
 			}
 		case g != w:
-			out.Changed = true
-			byAPI[k[:strings.IndexByte(k, '#')]] = append(byAPI[k[:strings.IndexByte(k, '#')]], fmt.Sprintf("%s: pristine %s, now %s", k, short(w, 300), short(g, 300)))
+			changed = true
+			byAPI[apiOf(k)] = append(byAPI[apiOf(k)], fmt.Sprintf("%s: pristine %s, now %s", k, short(w, 300), short(g, 300)))
 		}
 	}
 	for k := range got {
-		if _, ok := want[k]; !ok && !out.Changed { // (a pristine error that became a success brings its sub-observations)
+		if _, ok := want[k]; !ok && !changed { // (a pristine error that became a success brings its sub-observations)
 			harnessBug("observation %s has no pristine counterpart", k)
 		}
 	}
@@ -962,39 +966,49 @@ func (p *pristine) compare(a alteration, want, got Obs, variant string, leaked [
 	}
 }
 
-// run executes one alteration (keep: full sweep with the persisted index; rebuild: index rebuilt up to the
-// number of leading readable txs, k when keep is not run) on the worker's private copy.
-func (w *worker) run(a alteration, keep, rebuild bool, k int) outcome {
+// want returns the pristine observations for a sweep whose index reaches tx upto.
+func (p *pristine) want(upto int, withIndex bool) Obs {
+	w := Obs{}
+	for k, v := range p.reads {
+		w[k] = v
+	}
+	if withIndex && upto >= 0 {
+		w["InitIndexing#"], w["WaitForIndexingUpto#"] = "ok:", "ok:"
+		for k, v := range p.getAt[upto] {
+			w[k] = v
+		}
+	}
+	return w
+}
+
+// run executes one alteration on the worker's private copy. mode "rebuilt": no index directory (the index is
+// rebuilt from the altered logs); "persisted": the index directory written before the alteration.
+func (w *worker) run(a alteration, mode string, indexAfterPanic bool, partial func(outcome)) outcome {
 	p := w.p
 	for attempt := 1; ; attempt++ {
-		out := &outcome{Readable: k}
+		out := &outcome{}
 		var cur atomic.Value
 		cur.Store("?")
 		ok := guarded(func() {
 			w.patch(a, false)
-			if keep {
-				s := &sweeper{p: p, obs: Obs{}, cur: &cur}
-				out.Readable = s.sweepKeep(w.dir)
-				p.compare(a, p.keep, s.obs, "keep", s.leaked, out)
-				out.Done = append(out.Done, "keep")
-			}
-			if rebuild && !out.NeedChild && out.Readable >= 0 {
-				os.Rename(filepath.Join(w.dir, "index"), filepath.Join(w.dir, "index.keep"))
-				s := &sweeper{p: p, obs: Obs{}, cur: &cur}
-				s.sweepRebuilt(w.dir, out.Readable)
-				want := Obs{"Open.rebuild#": "ok:", "WaitForIndexingUpto.rebuild#": "ok:"}
-				for kk, v := range p.getAt[out.Readable] {
-					i := strings.IndexByte(kk, '#')
-					j := strings.IndexByte(kk, '.')
-					if j < 0 || j > i {
-						j = i
-					}
-					want[kk[:j]+".rebuild"+kk[j:]] = v
-				}
-				p.compare(a, want, s.obs, fmt.Sprintf("rebuilt(upto=%d)", out.Readable), nil, out)
+			if mode == "rebuilt" {
 				os.RemoveAll(filepath.Join(w.dir, "index"))
-				os.Rename(filepath.Join(w.dir, "index.keep"), filepath.Join(w.dir, "index"))
-				out.Done = append(out.Done, "rebuild")
+			}
+			s := &sweeper{p: p, obs: Obs{}, cur: &cur}
+			readable := s.sweep(w.dir, mode == "persisted", indexAfterPanic, func(r int) {
+				if partial != nil {
+					po := outcome{Partial: true}
+					p.compare(a, p.want(r, false), s.obs, mode, s.leaked, &po)
+					partial(po)
+				}
+			})
+			upto := readable
+			if mode == "persisted" && readable >= 0 {
+				upto = nTx
+			}
+			p.compare(a, p.want(upto, !s.panicked), s.obs, mode, s.leaked, out)
+			if mode == "rebuilt" {
+				os.RemoveAll(filepath.Join(w.dir, "index"))
 			}
 			w.patch(a, true)
 		})
@@ -1005,27 +1019,13 @@ func (w *worker) run(a alteration, keep, rebuild bool, k int) outcome {
 		w.fresh()
 		if attempt == 3 {
 			field, tx, entry := p.describe(a)
-			api := fmt.Sprint(cur.Load())
-			if i := strings.IndexByte(api, '#'); i > 0 {
-				api = api[:i]
-			}
-			return outcome{Detected: true, Viol: []lib.Violation{{Sig: fmt.Sprintf("hang api=%s field=%s cfg=%s tx=%d entry=%d alt=%s", api, field, p.cf.Name, tx, entry, p.altString(a)),
-				Detail: fmt.Sprintf("the read sweep did not return within %v in 3 out of 3 attempts; last API call started: %v", hangCap, cur.Load()), Replay: replay{p.cf.Name, a, p.altString(a), p.hash}}}}
+			return outcome{Detected: true, Viol: []lib.Violation{{Sig: fmt.Sprintf("hang api=%s field=%s cfg=%s tx=%d entry=%d alt=%s index=%s", apiOf(fmt.Sprint(cur.Load())+"#"), field, p.cf.Name, tx, entry, p.altString(a), mode),
+				Detail: fmt.Sprintf("the read sweep did not return within %v in 3 out of 3 attempts; last API call started: %v", hangCap, cur.Load()), Replay: replay{p.cf.Name, a, p.altString(a), mode, p.hash}}}}
 		}
 	}
 }
 
-// ---------- child process (collector off; isolates process-level crashes) ----------
-
-type childReq struct {
-	Cfg     string     `json:"cfg"`
-	Alt     alteration `json:"alt"`
-	Hash    string     `json:"hash"`
-	Scratch string     `json:"scratch"`
-	Keep    bool       `json:"keep"`
-	Rebuild bool       `json:"rebuild"`
-	K       int        `json:"k"`
-}
+// ---------- preparation of a configuration: store, layout, pristine observations ----------
 
 func cfgByName(n string) cfg {
 	for _, cf := range allCfgs {
@@ -1040,129 +1040,192 @@ func cfgByName(n string) cfg {
 func prepare(cf cfg, root string) *pristine {
 	p := build(cf, filepath.Join(root, "master", "s"))
 	w := newWorker(p, filepath.Join(root, "p"))
-	// pristine observations; taken twice: they must be reproducible
-	for i := 0; i < 3; i++ { // sweep 0 only yields the Alh values, sweeps 1 and 2 must agree
+	var first Obs
+	for i := 0; i < 4; i++ { // sweep 0 only yields the Alh values; sweeps 1..3 (persisted, rebuilt, persisted) must agree
 		s := &sweeper{p: p, obs: Obs{}}
-		if r := s.sweepKeep(w.dir); r != nTx || s.panicked || len(s.leaked) > 0 {
+		if i == 2 {
+			os.RemoveAll(filepath.Join(w.dir, "index"))
+		}
+		if r := s.sweep(w.dir, i != 2, false, func(int) {}); r != nTx || s.panicked || len(s.leaked) > 0 {
 			harnessBug("%s: pristine sweep: readable=%d panicked=%v leaked=%v %v", cf.Name, r, s.panicked, s.leaked, s.obs)
 		}
-		if i == 1 {
-			p.keep = s.obs
-		} else if i == 0 {
+		if i == 2 {
+			os.RemoveAll(filepath.Join(w.dir, "index"))
+			writeTree(w.dir, p.files, "index/")
+		}
+		switch {
+		case i == 0:
 			for t := 1; t <= nTx; t++ { // the accumulated hashes a client would hold
-				var h [sha256.Size]byte
 				o := s.obs[fmt.Sprintf("ReadTxHeader#%d", t)]
-				hex.Decode(h[:], []byte(o[strings.LastIndex(o, "alh=")+4:]))
-				p.alh[t] = h
+				hex.Decode(p.alh[t][:], []byte(o[strings.LastIndex(o, "alh=")+4:]))
 			}
-		} else if !reflect.DeepEqual(p.keep, s.obs) {
-			for k, v := range p.keep {
+		case i == 1:
+			first = s.obs
+		case !reflect.DeepEqual(first, s.obs):
+			for k, v := range first {
 				if s.obs[k] != v {
-					fmt.Fprintf(os.Stderr, "%s:\n  1st %s\n  2nd %s\n", k, short(v, 300), short(s.obs[k], 300))
+					fmt.Fprintf(os.Stderr, "%s:\n  1st %s\n  now %s\n", k, short(v, 300), short(s.obs[k], 300))
 				}
 			}
-			harnessBug("%s: pristine sweep is not reproducible (%d vs %d observations)", cf.Name, len(p.keep), len(s.obs))
+			harnessBug("%s: pristine sweep %d differs from sweep 1 (%d vs %d observations)", cf.Name, i, len(first), len(s.obs))
 		}
 	}
-	for k, v := range p.keep {
-		isGet := strings.HasPrefix(k, "Get")
-		if !strings.HasPrefix(v, "ok:") && !isGet {
+	p.reads = Obs{}
+	for k, v := range first {
+		switch {
+		case strings.HasPrefix(k, "Get"):
+			if v != p.getAt[nTx][k] {
+				harnessBug("%s: %s after reopen = %s, before close = %s", cf.Name, k, v, p.getAt[nTx][k])
+			}
+			continue
+		case k == "InitIndexing#" || k == "WaitForIndexingUpto#":
+			continue
+		case !strings.HasPrefix(v, "ok:"):
 			harnessBug("%s: pristine observation %s = %s", cf.Name, k, v)
-		}
-		if strings.HasPrefix(k, "DualProof") && !strings.HasSuffix(v, "verifies=true") {
+		case strings.HasPrefix(k, "DualProof") && !strings.HasSuffix(v, "verifies=true"):
 			harnessBug("%s: pristine dual proof %s does not verify", cf.Name, k)
 		}
-		if isGet && v != p.getAt[nTx][k] {
-			harnessBug("%s: %s after reopen = %s, before close = %s", cf.Name, k, v, p.getAt[nTx][k])
+		p.reads[k] = v
+	}
+	for _, mode := range []string{"rebuilt", "persisted"} {
+		if out := w.run(nil, mode, false, nil); len(out.Viol) > 0 || out.Detected {
+			harnessBug("%s: unaltered store, index %s: %+v", cf.Name, mode, out)
 		}
 	}
-	// the rebuilt index must reproduce the live one
-	out := w.run(nil, false, true, nTx)
-	if len(out.Viol) > 0 || len(out.Done) != 1 {
-		harnessBug("%s: pristine rebuild differs: %+v", cf.Name, out)
-	}
 	w.selfCheck()
+	p.saved = filepath.Join(root, "pristine.gob")
+	f, err := os.Create(p.saved)
+	if err != nil || gob.NewEncoder(f).Encode(savedPristine{p.files, p.reads, p.getAt, p.alh, p.hash}) != nil || f.Close() != nil {
+		harnessBug("cannot save the pristine state: %v", err)
+	}
 	return p
 }
 
-func childMain(arg string) {
-	var rq childReq
-	if err := json.Unmarshal([]byte(arg), &rq); err != nil {
-		harnessBug("child: %v", err)
-	}
-	p := prepare(cfgByName(rq.Cfg), rq.Scratch)
-	if p.hash != rq.Hash {
-		harnessBug("child: store build is not deterministic (%s vs %s)", p.hash, rq.Hash)
-	}
-	debug.SetGCPercent(-1) // every large buffer comes fresh from the OS and is never touched
-	w := newWorker(p, filepath.Join(rq.Scratch, "w"))
-	enc := json.NewEncoder(os.Stdout)
-	k := rq.K
-	if rq.Keep {
-		out := w.run(rq.Alt, true, false, 0)
-		out.NeedChild = false
-		k = out.Readable
-		enc.Encode(out)
-	}
-	if rq.Rebuild {
-		out := w.run(rq.Alt, false, true, k)
-		enc.Encode(out)
-	}
-	os.Exit(0)
+type savedPristine struct {
+	Files map[string][]byte
+	Reads Obs
+	GetAt [nTx + 1]Obs
+	Alh   [nTx + 1][sha256.Size]byte
+	Hash  string
 }
 
-func (p *pristine) runChild(a alteration, keep, rebuild bool, k int) (outs []outcome) {
-	scratch := lib.Scratch("c09child")
-	defer os.RemoveAll(scratch)
-	rq, _ := json.Marshal(childReq{p.cf.Name, a, p.hash, scratch, keep, rebuild, k})
-	ctx, cancel := context.WithTimeout(context.Background(), 8*hangCap)
-	defer cancel()
-	cmd := exec.CommandContext(ctx, os.Args[0], "-child", string(rq))
-	var so, se bytes.Buffer
-	cmd.Stdout, cmd.Stderr = &so, &se
-	err := cmd.Run()
-	dec := json.NewDecoder(&so)
+// ---------- child processes (collector off: large buffers stay untouched; isolate process-level crashes) ----------
+
+type childInit struct {
+	Cfg      string `json:"cfg"`
+	Pristine string `json:"pristine"`
+	Scratch  string `json:"scratch"`
+}
+
+type childReq struct {
+	Alt  alteration `json:"alt"`
+	Mode string     `json:"mode"`
+}
+
+func childMain(arg string) {
+	var in childInit
+	if err := json.Unmarshal([]byte(arg), &in); err != nil {
+		harnessBug("child: %v", err)
+	}
+	var sp savedPristine
+	f, err := os.Open(in.Pristine)
+	if err != nil || gob.NewDecoder(f).Decode(&sp) != nil {
+		harnessBug("child: cannot load %s: %v", in.Pristine, err)
+	}
+	f.Close()
+	p := &pristine{cf: cfgByName(in.Cfg), files: sp.Files, reads: sp.Reads, getAt: sp.GetAt, alh: sp.Alh, hash: sp.Hash}
+	p.layout()
+	debug.SetGCPercent(-1) // every large buffer comes fresh from the OS and is never touched; the parent recycles the process
+	w := newWorker(p, filepath.Join(in.Scratch, "w"))
+	enc, dec := json.NewEncoder(os.Stdout), json.NewDecoder(os.Stdin)
+	for {
+		var rq childReq
+		if dec.Decode(&rq) != nil {
+			os.Exit(0)
+		}
+		enc.Encode(w.run(rq.Alt, rq.Mode, true, func(po outcome) { enc.Encode(po) }))
+	}
+}
+
+type childProc struct {
+	cmd     *exec.Cmd
+	in      io.WriteCloser
+	out     *json.Decoder
+	errb    bytes.Buffer
+	scratch string
+	served  int
+}
+
+func (ch *childProc) stop() {
+	ch.in.Close()
+	ch.cmd.Wait()
+	os.RemoveAll(ch.scratch)
+}
+
+// runChild returns the outcome of the alteration executed in the worker's child process (a crash of the child
+// is a violation). The child is replaced after a crash and after 16 alterations (its heap only grows).
+func (w *worker) runChild(a alteration, mode string) outcome {
+	p := w.p
+	if w.child != nil && w.child.served >= 16 {
+		w.child.stop()
+		w.child = nil
+	}
+	if w.child == nil {
+		ch := &childProc{scratch: lib.Scratch("c09child")}
+		arg, _ := json.Marshal(childInit{p.cf.Name, p.saved, ch.scratch})
+		ch.cmd = exec.Command(os.Args[0], "-child", string(arg))
+		ch.in, _ = ch.cmd.StdinPipe()
+		so, _ := ch.cmd.StdoutPipe()
+		ch.cmd.Stderr = &ch.errb
+		if err := ch.cmd.Start(); err != nil {
+			harnessBug("cannot start a child process: %v", err)
+		}
+		ch.out = json.NewDecoder(so)
+		w.child = ch
+	}
+	ch := w.child
+	ch.served++
+	if err := json.NewEncoder(ch.in).Encode(childReq{a, mode}); err != nil {
+		harnessBug("child request: %v (%s)", err, short(ch.errb.String(), 2000))
+	}
+	var last *outcome
 	for {
 		var o outcome
-		if dec.Decode(&o) != nil {
+		if err := ch.out.Decode(&o); err != nil {
 			break
 		}
-		outs = append(outs, o)
-	}
-	want := 0
-	if keep {
-		want++
-	}
-	if rebuild {
-		want++
-	}
-	if err == nil && len(outs) == want {
-		return outs
-	}
-	msg := se.String()
-	if i := strings.Index(msg, "panic:"); i >= 0 || strings.Contains(msg, "fatal error:") {
-		if i < 0 {
-			i = strings.Index(msg, "fatal error:")
+		last = &o
+		if !o.Partial {
+			return o
 		}
-		field, tx, entry := p.describe(a)
-		api, variant := "read-sweep", "keep"
-		if len(outs) == want-1 && rebuild {
-			api, variant = "index-rebuild", "rebuilt"
-		}
-		outs = append(outs, outcome{Detected: true, Viol: []lib.Violation{{Sig: fmt.Sprintf("crash api=%s field=%s cfg=%s tx=%d entry=%d alt=%s idx=%s", api, field, p.cf.Name, tx, entry, p.altString(a), variant),
-			Detail: "the process died (a panic in a goroutine of the store cannot be recovered by the caller): " + short(msg[i:], 1500), Replay: replay{p.cf.Name, a, p.altString(a), p.hash}}}})
-		return outs
 	}
-	harnessBug("child failed: %v\nstdout: %s\nstderr: %s", err, so.String(), short(msg, 3000))
-	return nil
+	ch.stop()
+	w.child = nil
+	msg := ch.errb.String()
+	i := strings.Index(msg, "panic:")
+	if i < 0 {
+		i = strings.Index(msg, "fatal error:")
+	}
+	if i < 0 {
+		harnessBug("child failed: %s", short(msg, 3000))
+	}
+	out, api := outcome{}, "read-sweep"
+	if last != nil {
+		out, api = *last, "index"
+	}
+	field, tx, entry := p.describe(a)
+	out.Detected = true
+	out.Viol = append(out.Viol, lib.Violation{Sig: fmt.Sprintf("crash api=%s field=%s cfg=%s tx=%d entry=%d alt=%s index=%s", api, field, p.cf.Name, tx, entry, p.altString(a), mode),
+		Detail: "the process died (a panic in a goroutine of the store cannot be recovered by the caller): " + short(msg[i:], 1500), Replay: replay{p.cf.Name, a, p.altString(a), mode, p.hash}})
+	return out
 }
 
 // ---------- hang confirmation ----------
 
 type hangProbe struct {
 	start    time.Time
-	returned [3]atomic.Bool
 	armed    [3]atomic.Bool
+	returned [3]atomic.Bool
 }
 
 var (
@@ -1181,8 +1244,7 @@ func confirmHang(p *pristine, a alteration, root string) {
 			if err != nil {
 				return
 			}
-			tx := store.NewTx(maxTxEntries, maxKeyLen)
-			mux := valBsMux(st)
+			tx, mux := store.NewTx(maxTxEntries, maxKeyLen), valBsMux(st)
 			for t := 1; t <= nTx; t++ {
 				st.ExportTx(uint64(t), false, false, tx)
 				if !mux.TryLock() {
@@ -1199,59 +1261,38 @@ func confirmHang(p *pristine, a alteration, root string) {
 
 // ---------- main ----------
 
-type tally struct {
-	mu    sync.Mutex
-	leaks []lib.Violation
-}
-
 func main() {
 	child := flag.String("child", "", "internal: run one alteration in a child process")
 	dump := flag.String("dump", "", "internal: build the stores of all configurations under this directory and describe them")
 	flag.Parse()
+	if *child != "" {
+		childMain(*child)
+	}
 	if *dump != "" {
 		for _, cf := range allCfgs {
 			p := prepare(cf, filepath.Join(*dump, cf.Name))
-			fmt.Printf("%s hash=%s sites=%d observations=%d\n", cf.Name, p.hash, len(p.sites), len(p.keep))
 			n := map[string]int{}
 			for _, s := range p.sites {
 				n[s.Log+":"+p.regions[s.reg].Field]++
 			}
-			fmt.Println("  ", n)
+			fmt.Printf("%s hash=%s sites=%d observations=%d+%d\n   %v\n", cf.Name, p.hash, len(p.sites), len(p.reads), len(p.getAt[nTx])+2, n)
 			w := newWorker(p, filepath.Join(*dump, cf.Name, "timing"))
 			t0 := time.Now()
 			for i := 0; i < 20; i++ {
-				w.run(nil, true, false, 0)
+				w.run(nil, "rebuilt", false, nil)
 			}
 			t1 := time.Now()
 			for i := 0; i < 20; i++ {
-				w.run(nil, false, true, nTx)
+				w.run(nil, "persisted", false, nil)
 			}
-			t2 := time.Now()
-			a := alteration{{100, p.sites[100].orig ^ 1, "flip0"}}
-			for i := 0; i < 20; i++ {
-				w.run(a, true, true, 0)
-			}
-			fmt.Printf("   keep sweep %v, rebuild sweep %v, detected alteration both %v\n", t1.Sub(t0)/20, t2.Sub(t1)/20, time.Since(t2)/20)
+			fmt.Printf("   rebuilt sweep %v, persisted sweep %v\n", t1.Sub(t0)/20, time.Since(t1)/20)
 		}
 		os.Exit(0)
-	}
-	if *child != "" {
-		childMain(*child)
 	}
 	if pf := os.Getenv("C09_PROF"); pf != "" {
 		f, _ := os.Create(pf)
 		pprof.StartCPUProfile(f)
-		defer pprof.StopCPUProfile()
-		runtime.MemProfileRate = 4096
-		go func() {
-			time.Sleep(25 * time.Second)
-			pprof.StopCPUProfile()
-			f.Close()
-			mf, _ := os.Create(pf + ".mem")
-			pprof.Lookup("allocs").WriteTo(mf, 0)
-			mf.Close()
-			os.Exit(0)
-		}()
+		go func() { time.Sleep(30 * time.Second); pprof.StopCPUProfile(); f.Close(); os.Exit(0) }()
 	}
 	c = lib.New("C09", "exploration", 100*time.Second, 25*time.Minute)
 	c.Assume("SHA-256 collision resistance; alterations restricted to the committed tx-log records and the referenced value-log ranges (commit log, hash tree and index files are not altered)")
@@ -1259,8 +1300,11 @@ func main() {
 	if v := os.Getenv("C09_WORKERS"); v != "" {
 		fmt.Sscan(v, &c.Workers)
 	}
-	// thousands of short-lived stores per second: collect by heap size, not by growth ratio (the live heap is tiny)
-	ballast = make([]byte, 256<<20) // never touched: only raises the heap goal so that freed spans stay resident and are reused
+	bsz := 16
+	if v := os.Getenv("C09_BALLAST"); v != "" {
+		fmt.Sscan(v, &bsz)
+	}
+	ballast = make([]byte, bsz<<20) // never touched: only raises the heap goal so that freed spans stay resident and are reused
 	root := lib.Scratch("c09")
 	defer os.RemoveAll(root)
 
@@ -1271,33 +1315,36 @@ func main() {
 		if p.hash != r.Hash {
 			fmt.Printf("note: the store built now (%s) differs from the recorded one (%s)\n", p.hash, r.Hash)
 		}
-		for _, out := range p.runChild(r.Alt, true, true, 0) {
-			for _, v := range append(out.Viol, out.Leaks...) {
-				c.Violate(v)
-			}
-			c.AddEvals(out.Evals)
+		rw := newWorker(p, filepath.Join(root, "replay"))
+		out := rw.runChild(r.Alt, r.Index)
+		if rw.child != nil {
+			rw.child.stop()
 		}
-		c.Finish("replay of "+p.altString(r.Alt), false)
+		for _, v := range append(out.Viol, out.Leaks...) {
+			c.Violate(v)
+		}
+		c.AddEvals(out.Evals)
+		c.Finish("replay of "+p.altString(r.Alt)+" index "+r.Index, false)
 	}
 
-	cfgs := allCfgs[:4]
-	if c.Thorough() {
-		cfgs = allCfgs
-	}
-	var tl tally
+	// quick: 4 configurations, single alterations, rebuilt index. thorough: 5 configurations, single alterations with
+	// rebuilt and with persisted index, then pairs of bit flips with rebuilt index.
 	type phase struct {
-		name  string
-		pairs bool
+		name, mode string
+		pairs      bool
 	}
-	phases := []phase{{"single", false}}
+	cfgs, phases := allCfgs[:4], []phase{{"single", "rebuilt", false}}
 	if c.Thorough() {
-		phases = append(phases, phase{"pair", true})
+		cfgs, phases = allCfgs, []phase{{"single", "rebuilt", false}, {"single", "persisted", false}, {"pair", "rebuilt", true}}
 	}
+	var leakMu sync.Mutex
+	var leaks []lib.Violation
 	ps := map[string]*pristine{}
-	for _, ph := range phases { // all single alterations of all configurations first, then the pairs
+	for _, ph := range phases { // a phase is finished for every configuration before the next one starts
 		for _, cf := range cfgs {
+			tag := ph.name + "_" + ph.mode + "_" + cf.Name
 			if c.Expired() {
-				c.CapHit(fmt.Sprintf("time budget: %s alterations of configuration %s not started", ph.name, cf.Name))
+				c.CapHit("time budget: not started: " + tag)
 				continue
 			}
 			p := ps[cf.Name]
@@ -1305,17 +1352,17 @@ func main() {
 				p = prepare(cf, filepath.Join(root, cf.Name))
 				ps[cf.Name] = p
 				c.Set("sites_"+cf.Name, len(p.sites))
-				c.Set("pristine_observations_"+cf.Name, len(p.keep)+len(p.getAt[nTx])+2)
+				c.Set("observations_per_sweep_"+cf.Name, len(p.reads)+len(p.getAt[nTx])+2)
 			}
 			workers := make(chan *worker, c.Workers)
 			for i := 0; i < c.Workers; i++ {
-				workers <- newWorker(p, filepath.Join(root, cf.Name, fmt.Sprintf("w%d-%s", i, ph.name)))
+				workers <- newWorker(p, filepath.Join(root, cf.Name, fmt.Sprintf("w%d-%s-%s", i, ph.name, ph.mode)))
 			}
-			var skipped atomic.Int64
 			nSites := len(p.sites)
 			if v := os.Getenv("C09_SITES"); v != "" {
 				fmt.Sscan(v, &nSites)
 			}
+			var skipped atomic.Int64
 			c.ParallelFor(nSites, func(si int) {
 				if c.Expired() {
 					skipped.Add(1)
@@ -1329,60 +1376,59 @@ func main() {
 				}
 				field := p.regions[p.sites[si].reg].Field
 				for _, a := range alts {
-					var outs []outcome
+					var out outcome
+					t0 := time.Now()
 					if p.predictAlloc(a) >= heavyAlloc {
-						outs = p.runChild(a, true, true, 0)
+						out = w.runChild(a, ph.mode)
 						c.Add("alterations_run_in_child_process", 1)
-					} else {
-						o := w.run(a, true, true, 0)
-						outs = []outcome{o}
-						if o.NeedChild {
-							outs = append(outs, p.runChild(a, false, true, o.Readable)...)
-							c.Add("alterations_run_in_child_process", 1)
-						}
+					} else if out = w.run(a, ph.mode, false, nil); out.NeedChild {
+						// a read panicked (caught): the index part runs where a panicking indexer goroutine cannot kill the check
+						co := w.runChild(a, ph.mode)
+						out.Viol = append(out.Viol, co.Viol...)
+						c.Add("alterations_run_in_child_process", 1)
 					}
-					var detected, changed bool
-					nv := 0
-					for _, o := range outs {
-						c.AddEvals(o.Evals)
-						detected = detected || o.Detected
-						changed = changed || o.Changed
-						for _, v := range o.Viol {
-							c.Violate(v)
-							nv++
-						}
-						if len(o.Leaks) > 0 {
-							probeOnce.Do(func() { confirmHang(p, a, root) })
-							tl.mu.Lock()
-							tl.leaks = append(tl.leaks, o.Leaks...)
-							tl.mu.Unlock()
-							nv++
-						}
+					if os.Getenv("C09_TIMING") != "" {
+						c.Add("us_by_field_"+field, int64(time.Since(t0)/time.Microsecond))
+						c.Add("n_by_field_"+field, 1)
 					}
-					c.Add("alterations_"+ph.name+"_"+cf.Name, 1)
+					c.AddEvals(out.Evals)
+					for _, v := range out.Viol {
+						c.Violate(v)
+					}
+					if len(out.Leaks) > 0 {
+						probeOnce.Do(func() { confirmHang(p, a, root) })
+						leakMu.Lock()
+						leaks = append(leaks, out.Leaks...)
+						leakMu.Unlock()
+					}
+					c.Add("alterations_"+tag, 1)
 					switch {
-					case nv > 0:
+					case len(out.Viol)+len(out.Leaks) > 0:
 						c.Add("alterations_violating", 1)
 						c.Add("violating_by_field_"+field, 1)
-					case detected:
+					case out.Detected:
 						c.Add("alterations_detected", 1)
+						if si%97 == 0 {
+							c.Sample(map[string]any{"detected": p.altString(a), "cfg": cf.Name, "field": field, "by": out.Example})
+						}
 					default:
 						c.Add("alterations_tolerated_all_reads_equal_pristine", 1)
 						c.Add("tolerated_by_field_"+field, 1)
-						if ph.name == "single" {
-							c.Sample(map[string]any{"tolerated": p.altString(a), "cfg": cf.Name, "field": field})
-						}
 					}
-					if detected || nv > 0 {
-						c.Distinct(cf.Name + "/" + p.altString(a))
+					if out.Detected || len(out.Viol)+len(out.Leaks) > 0 {
+						c.Distinct(tag + "/" + p.altString(a))
 					}
 				}
 			})
 			for i := 0; i < c.Workers; i++ {
-				(<-workers).selfCheck()
+				w := <-workers
+				w.selfCheck()
+				if w.child != nil {
+					w.child.stop()
+				}
 			}
 			if n := skipped.Load(); n > 0 {
-				c.CapHit(fmt.Sprintf("time budget: %s alterations of %d of %d sites of configuration %s not run", ph.name, n, len(p.sites), cf.Name))
+				c.CapHit(fmt.Sprintf("time budget: %s: %d of %d sites not run", tag, n, nSites))
 			}
 		}
 	}
@@ -1398,14 +1444,15 @@ func main() {
 		}
 		c.Set("hang_confirmations_blocked_longer_than_cap", blocked)
 		if blocked == 3 {
-			for _, v := range tl.leaks {
+			for _, v := range leaks {
 				c.Violate(v)
 			}
 		} else {
-			c.CapHit(fmt.Sprintf("ExportTx left its mutex locked in %d cases but only %d of 3 real follow-up calls blocked for %v", len(tl.leaks), blocked, hangCap))
+			c.CapHit(fmt.Sprintf("ExportTx left its mutex locked in %d cases but only %d of 3 real follow-up calls blocked for %v", len(leaks), blocked, hangCap))
 		}
 	}
 	c.Finish("every alteration (operators: 8 bit flips, 00, FF, ^b per byte; thorough: + every pair of bit flips less than 8 bytes apart) of every committed "+
-		"tx-log byte and every referenced value-log byte, per configuration; each followed by the full read sweep with the persisted and with a rebuilt index; "+
-		"every observation must be an error or equal the pristine one. evaluations = compared observations; distinct = alterations detected by at least one read", !c.Expired())
+		"tx-log byte and every referenced value-log byte, per configuration; each followed by Open and the full read sweep (index rebuilt from the altered logs; "+
+		"thorough: also with the index persisted before the alteration); every observation must be an error or equal the pristine one. "+
+		"evaluations = compared observations; distinct = alterations detected by at least one read", !c.Expired())
 }
